@@ -207,11 +207,11 @@ def load_known_findings() -> Dict[str, Any]:
 
 
 # --------------------------------------------------------------------------- replay
-def replay_subprocess(check_module: str, obligation: str, witness: Dict[str, Any], replay_path: str):
+def replay_subprocess(check_module: str, obligation: str, witness: Dict[str, Any], replay_path: str, tier: str = "quick"):
     """Run `python -m checks.replay` in a fresh interpreter on the plain (unrewritten) library."""
     os.makedirs(os.path.dirname(replay_path), exist_ok=True)
     with open(replay_path, "w") as fp:
-        json.dump({"module": check_module, "obligation": obligation, "witness": witness}, fp, indent=1, default=str)
+        json.dump({"module": check_module, "obligation": obligation, "tier": tier, "witness": witness}, fp, indent=1, default=str)
     env = dict(os.environ)
     env["PYTHONPATH"] = ROOT + os.pathsep + "/repo/src"
     env.pop("SX_ACTIVE", None)
@@ -285,7 +285,7 @@ def run_check(prop_id: str, level: str, tier: str, check_module: str, obligation
             if ob.replay is None:
                 unreproduced.append({"obligation": ob.name, "label": v["label"], "witness": v["witness"], "why": "no replay function"})
                 continue
-            rc, out = replay_subprocess(check_module, ob.name, {"label": v["label"], **v["witness"]}, rp)
+            rc, out = replay_subprocess(check_module, ob.name, {"label": v["label"], **v["witness"]}, rp, tier)
             if rc == 10:   # reproduced
                 entry = {"obligation": ob.name, "label": v["label"], "key": key, "witness": v["witness"],
                          "replay": rp, "replay_output": out[-600:]}
